@@ -1,21 +1,23 @@
 #!/bin/bash
-# usage: confirm_seed.sh <worktree> <out/mN dir> <seed id>  -> prints CONFIRMED or reason; on success copies into /verif/seeded/<seed id>/
-WT="$1"; M="$2"; ID="$3"
+# usage: confirm_seed.sh <dir with patch.diff, demo_*.rs, meta.json> <seed id> [worktree]
+# Confirms in a scratch worktree of /repo HEAD: demo passes without the change, fails with it, the
+# unchanged suite (215) passes with it. On success copies the files into /verif/seeded/<seed id>/.
+M="$1"; ID="$2"; WT="${3:-/tmp/wt_conf}"
 cd "$WT" || exit 2
 export CARGO_NET_OFFLINE=true
-git checkout -q -- src
-DEMO=$(ls "$M"/*.rs 2>/dev/null | head -1)
+git checkout -q -- . ; rm -f tests/demo_*.rs
+fresh() { rm -rf target/debug/.fingerprint/ntex-mqtt-*; }
+DEMO=$(ls "$M"/demo*.rs 2>/dev/null | head -1)
 [ -z "$DEMO" ] && { echo "$ID: no demo .rs file"; exit 1; }
 NAME=$(basename "$DEMO" .rs)
-rm -f tests/demo_*.rs
 cp "$DEMO" tests/$NAME.rs
-cargo test --offline --test $NAME >/tmp/confirm_$ID.a 2>&1; A=$?
-git apply "$M/patch.diff" || { echo "$ID: patch does not apply"; exit 1; }
-cargo test --offline --test $NAME >/tmp/confirm_$ID.b 2>&1; B=$?
+fresh; cargo test --offline --test $NAME >/tmp/confirm_$ID.a 2>&1; A=$?
+git apply "$M/patch.diff" || { echo "$ID: patch does not apply"; rm -f tests/$NAME.rs; exit 1; }
+fresh; cargo test --offline --test $NAME >/tmp/confirm_$ID.b 2>&1; B=$?
 rm -f tests/$NAME.rs
-cargo test --workspace --no-fail-fast --offline >/tmp/confirm_$ID.c 2>&1; C=$?
+fresh; cargo test --workspace --no-fail-fast --offline >/tmp/confirm_$ID.c 2>&1; C=$?
 PASSED=$(grep -E "^test result" /tmp/confirm_$ID.c | awk '{p+=$4; f+=$6} END {print p":"f}')
-git checkout -q -- src
+git checkout -q -- .
 echo "$ID: demo_without_change_rc=$A demo_with_change_rc=$B suite_with_change_rc=$C passed:failed=$PASSED"
 if [ $A -eq 0 ] && [ $B -ne 0 ] && [ $C -eq 0 ] && [ "$PASSED" = "215:0" ]; then
   mkdir -p /verif/seeded/$ID && cp "$M/patch.diff" "$DEMO" "$M/meta.json" /verif/seeded/$ID/ && echo "$ID: CONFIRMED"
